@@ -90,6 +90,16 @@ Theorem closed_serves_nothing : forall m, In m methods ->
 Proof. exact closed_serves_nothing_l. Qed.
 Print Assumptions closed_serves_nothing.
 
+(* Close, over the GENERATED shapes of VFS.Close (files.go) and closeableResource.Close (resource.go): whenever Close()
+   returns nil the closed flag is set (so the guard of every method fires), and it does return nil when closing the
+   underlying archive file succeeds.  When the underlying close fails (archive file already closed by the caller on the
+   OS back end) Close() returns that error and the file system stays open: success is never reported without the flag. *)
+Theorem close_nil_sets_flag :
+  (forall underlying_fails, fst (close_model underlying_fails) = true -> snd (close_model underlying_fails) = true) /\
+  close_model false = (true, true).
+Proof. split; [exact close_nil_sets_flag_l | exact close_succeeds_when_underlying_does_l]. Qed.
+Print Assumptions close_nil_sets_flag.
+
 (* The abstract run used by closed_serves_nothing is sound for EVERY table and every resolution of the non-determinism
    of the execution semantics [exec] (Proofs5.v): if it does not end in OBackend no backend mention is reached, and if it
    ends in OFailCond / OFailOther the call returns an error without reaching the backend. *)
